@@ -470,3 +470,4 @@ fn run(prop: &str, tier: &str) -> i32 {
         0
     }
 }
+
